@@ -93,6 +93,13 @@ TEMPLATES = [
     ('exit_do_outside', 'EXIT DO', 0), ('exit_for_in_do', 'DO\nEXIT FOR\nLOOP', 0), ('next_without_for', 'NEXT', 0),
     ('else_alone', 'ELSE', 0), ('end_if_alone', 'END IF', 0), ('case_alone', 'CASE 1', 0), ('wend_alone', 'WEND', 0),
     ('shared_in_sub', 'CALL pn(1)', 0),
+    # declarations, lvalue shapes and misuse
+    ('lv_read', 'READ {0}\nDATA 1', 'lvalue'), ('lv_input', 'INPUT {0}', 'lvalue'), ('lv_assign', '{0} = 1', 'lvalue'),
+    ('lv_assign_s', '{0} = "x"', 'lvalue'), ('lv_for', 'FOR {0} = 1 TO 2\nNEXT', 'lvalue'), ('lv_call_ref', 'CALL pn({0})', 'lvalue'),
+    ('lv_print', 'PRINT {0}', 'lvalue'), ('lv_swap_like', 'tmp = {0}\n{0} = f\nf = tmp', 'lvalue'),
+    ('argc_sub', 'CALL pn({0})', 'arglist'), ('argc_func', 'x = fn({0})', 'arglist'), ('argc_builtin', 'x = LEN({0})', 'arglist'),
+    ('argc_mid', 's$ = MID$({0})', 'arglist'), ('argc_nocall', 'pn {0}', 'arglist'),
+    ('misc', '{0}', 'misc'),
 ]
 ROUTINES = ('\nSUB pn (n%)\nPRINT n%\nEND SUB\nSUB ps (v$)\nPRINT v$\nEND SUB\nSUB p2 (n, v$)\nn = 1\nEND SUB\n'
             'FUNCTION fn (n)\nfn = n + 1\nEND FUNCTION\nFUNCTION fs$ (v$)\nfs$ = v$ + "!"\nEND FUNCTION\n')
@@ -103,8 +110,68 @@ MACHINE_FAULTS = {TrapCode.INVALID_OP_CODE, TrapCode.STACK_EMPTY, TrapCode.INVAL
                   TrapCode.NULL_REFERENCE, TrapCode.UNINITIALIZED_MEM, TrapCode.INVALID_DIMENSIONS}
 
 
+LVALUES = {
+    'scalar': 'v%', 'untyped': 'v', 'str': 'v$', 'arr': 'a(1)', 'arr2': 'a(1, 2)', 'arr0': 'a()', 'sarr': 't$(2)', 'field': 'r.x',
+    'field_missing': 'r.zz', 'field_of_scalar': 'v%.x', 'whole_rec': 'r', 'arr_of_rec': 'ra(1).y', 'arr_of_rec_whole': 'ra(1)',
+    'const': 'kc', 'func': 'fn', 'sub': 'pn', 'undeclared_arr': 'zz(3)', 'big_index': 'a(70000)', 'str_index': 'a("x")',
+    'neg_index': 'a(-1)', 'literal': '5', 'expr': 'v% + 1', 'nested': 'a(a(1))', 'keyword': 'print',
+}
+ARGLISTS = {'none': '', 'one': '1', 'two': '1, 2', 'three': '1, 2, 3', 'four': '1, 2, 3, 4', 'str': '"a"', 'str_two': '"a", "b"',
+            'mixed': '"a", 1', 'empty_slot': '1, , 2', 'array': 'a()', 'rec': 'r', 'nested': 'fn(fn(1))', 'trailing': '1,'}
+MISC = {
+    'dup_sub': 'SUB d1\nEND SUB\nSUB d1\nEND SUB', 'dup_func_sub': 'SUB d2\nEND SUB\nFUNCTION d2\nEND FUNCTION',
+    'dup_label': 'l1: PRINT 1\nl1: PRINT 2', 'dup_lineno': '10 PRINT 1\n10 PRINT 2', 'dup_dim': 'DIM z(3)\nDIM z(4)',
+    'dup_const': 'CONST c1 = 1\nCONST c1 = 2', 'const_assign': 'CONST c2 = 1\nc2 = 3', 'const_of_var': 'v = 2\nCONST c3 = v',
+    'const_as_array': 'CONST c4 = 1\nPRINT c4(1)', 'dim_then_scalar': 'DIM z2(3)\nz2 = 1', 'scalar_then_index': 'w = 1\nPRINT w(2)',
+    'rank_mismatch': 'DIM m(2, 2)\nm(1) = 1', 'rank_mismatch2': 'DIM m2(2)\nm2(1, 1) = 1', 'dim_zero_dims': 'DIM z3()',
+    'dim_neg': 'DIM z4(-5)\nz4(0) = 1', 'dim_reversed': 'DIM z5(5 TO 1)', 'dim_rec_unknown': 'DIM q1 AS nosuch',
+    'type_dup_field': 'TYPE t1\n a AS INTEGER\n a AS LONG\nEND TYPE', 'type_empty': 'TYPE t2\nEND TYPE',
+    'type_self': 'TYPE t3\n a AS t3\nEND TYPE', 'type_dup': 'TYPE t4\n a AS INTEGER\nEND TYPE\nTYPE t4\n b AS LONG\nEND TYPE',
+    'type_in_sub': 'SUB s1\nTYPE t5\n a AS INTEGER\nEND TYPE\nEND SUB', 'type_string_field': 'TYPE t6\n a AS STRING\nEND TYPE\nDIM q2 AS t6\nq2.a = "x"\nPRINT q2.a',
+    'rec_compare': 'IF r = q THEN PRINT 1', 'rec_print': 'PRINT r', 'rec_arith': 'x = r + 1', 'rec_arg': 'CALL pn(r)', 'rec_in_func': 'x = fn(r)',
+    'rec_array': 'DIM ra2(3) AS rec\nra2(1).x = 5\nPRINT ra2(1).x', 'rec_array_whole': 'DIM ra3(3) AS rec\nra3(1) = r',
+    'nested_blocks': 'FOR i% = 1 TO 2\nDO\nSELECT CASE i%\nCASE 1\nIF i% THEN EXIT DO\nCASE ELSE\nEXIT FOR\nEND SELECT\nLOOP\nNEXT',
+    'recursion': 'DECLARE FUNCTION fa& (n&)\nPRINT fa&(5)\nFUNCTION fa& (n&)\nIF n& <= 1 THEN fa& = 1 ELSE fa& = n& * fa&(n& - 1)\nEND FUNCTION',
+    'deep_recursion': 'CALL rr(1)\nSUB rr (n)\nIF n < 300 THEN CALL rr(n + 1)\nEND SUB',
+    'gosub_in_sub': 'CALL gs\nSUB gs\nGOSUB l2\nEXIT SUB\nl2: PRINT 1\nRETURN\nEND SUB', 'return_no_gosub': 'RETURN',
+    'goto_into_sub': 'GOTO l3\nSUB s2\nl3: PRINT 1\nEND SUB', 'exit_sub_main': 'EXIT SUB', 'exit_function_in_sub': 'SUB s3\nEXIT FUNCTION\nEND SUB',
+    'func_no_assign': 'PRINT f0\nFUNCTION f0\nEND FUNCTION', 'func_assign_outside': 'FUNCTION f1\nEND FUNCTION\nf1 = 2',
+    'func_as_sub': 'FUNCTION f2 (n)\nf2 = n\nEND FUNCTION\nCALL f2(1)', 'sub_as_func': 'SUB s4 (n)\nEND SUB\nx = s4(1)',
+    'sub_in_sub': 'SUB s5\nSUB s6\nEND SUB\nEND SUB', 'end_sub_alone': 'END SUB', 'sub_unclosed': 'SUB s7\nPRINT 1',
+    'declare_mismatch': 'DECLARE SUB s8 (a, b)\nSUB s8 (a)\nEND SUB\nCALL s8(1)', 'declare_only': 'DECLARE SUB s9 (a)\nCALL s9(1)',
+    'byval_literal_to_ref': 'CALL pn(5)\nCALL pn(5 + 1)\nCALL pn((v%))', 'array_param': 'DIM b1(3)\nCALL ap(b1())\nSUB ap (z())\nz(1) = 2\nEND SUB',
+    'array_param_scalar_arg': 'CALL ap2(v)\nSUB ap2 (z())\nEND SUB', 'scalar_param_array_arg': 'DIM b2(3)\nCALL pn(b2())',
+    'shared': 'DIM SHARED g1\ng1 = 3\nCALL sh\nSUB sh\nPRINT g1\nEND SUB', 'static': 'CALL st\nCALL st\nSUB st\nSTATIC c\nc = c + 1\nPRINT c\nEND SUB',
+    'static_main': 'STATIC zz1', 'defint': 'DEFINT A-Z\nx = 2.7\nPRINT x', 'defstr': 'DEFSTR S\ns1 = "a"\nPRINT s1 + "b"', 'defint_bad': 'DEFINT Z-A',
+    'on_error_missing': 'ON ERROR GOTO nolabel', 'resume_main': 'RESUME', 'resume_next_main': 'RESUME NEXT', 'error_in_handler': 'ON ERROR GOTO h2\nx = 1 / 0\nEND\nh2: x = 1 / 0\nRESUME NEXT',
+    'on_error_in_sub': 'CALL oe\nSUB oe\nON ERROR GOTO h3\nEND SUB\nh3: RESUME NEXT', 'data_in_sub': 'SUB ds\nDATA 1\nEND SUB',
+    'restore_lineno': '10 DATA 1\nRESTORE 10\nREAD x', 'restore_missing': 'RESTORE nowhere', 'read_no_data': 'READ x', 'read_too_many': 'DATA 1\nREAD x, y',
+    'read_str_into_num': 'DATA abc\nREAD x', 'data_quotes': 'DATA "a,b", c d ,,"x"\nREAD a$, b$, c$, d$\nPRINT a$; b$; c$; d$',
+    'print_forms': 'PRINT\nPRINT ,\nPRINT ;\nPRINT 1,,2\nPRINT 1;;2\nPRINT "a" "b"\nPRINT 1 2', 'print_using_forms': 'PRINT USING "#"; 1;\nPRINT USING "#"; 1,\nPRINT USING ""; 1',
+    'input_forms': 'INPUT ; v\nINPUT "p", v\nINPUT "p"; v, w$', 'colon_forms': ':\n::PRINT 1::\nPRINT 1:\n:PRINT 2', 'line_continuation': 'PRINT 1 _\n+ 2',
+    # sizes kept modest on purpose: pyparsing's operator-precedence parser is exponential in nesting depth, and parse time
+    # / termination are not claimed (not_covered for C06)
+    'long_line': 'x = ' + ' + '.join(['1'] * 40), 'deep_parens': 'x = ' + '(' * 5 + '1' + ')' * 5, 'deep_unary': 'x = ' + '-' * 6 + '1',
+    'long_string': 'PRINT "' + 'a' * 3000 + '"', 'many_vars': '\n'.join(f'v{i} = {i}' for i in range(60)), 'big_literals': 'x = 1E400\ny& = 99999999999\nz% = 40000',
+    'hex_literals': 'PRINT &HFFFF; &H10000; &O17; &HFFFFFFFF; &H', 'num_suffixes': 'PRINT 1%; 1&; 1!; 1#; 1.5%; 70000%; 1E5#; 1D5', 'empty_program': '', 'only_comment': "' hello\nREM x",
+    'unicode_string': 'PRINT "\u00e9\u2591"', 'tab_chars': 'PRINT\t1\t+\t2', 'crlf': 'PRINT 1\r\nPRINT 2\r\n',
+}
+
+
 def programs(name):
     tname, tpl, holes = next(t for t in TEMPLATES if t[0] == name)
+    if holes in ('lvalue', 'arglist', 'misc'):
+        pool = {'lvalue': LVALUES, 'arglist': ARGLISTS, 'misc': MISC}[holes]
+        pre = ('DIM a(5) AS INTEGER\nDIM t$(5)\nTYPE rec\n x AS INTEGER\n y AS LONG\nEND TYPE\nDIM r AS rec\nDIM q AS rec\n'
+               'DIM ra(3) AS rec\nCONST kc = 3\n')
+        out = []
+        for k, text in pool.items():
+            body = tpl.format(text)
+            src = pre + body + '\n'
+            if holes != 'misc' or any(x in body for x in ('pn(', 'fn(', 'ps(')):
+                src += ROUTINES
+            out.append(((k,), src))
+        return out
     if holes == 'binary':
         left = TINY + ['svar'] if thorough() else ['int', 'fvar', 'svar']
         right = TINY + ['svar', 'zero', 'neg'] if thorough() else ['big', 'str', 'zero', 'neg']
@@ -147,7 +214,8 @@ def known_for(name, fill, src, exc=None):
     import struct
     k = []
     # p = q for two records of the same type: the generator cannot read a whole record
-    k.append((KF_RECORD_ASSIGN, name == 'assign_rec' and fill == ('whole_rec',) and isinstance(exc, ValueError)))
+    k.append((KF_RECORD_ASSIGN, ((name == 'assign_rec' and fill == ('whole_rec',)) or (name == 'misc' and fill == ('rec_array_whole',)))
+              and isinstance(exc, ValueError)))
     # a static array (or all locals together) larger than the 16-bit frame operand: struct.error in the assembler
     k.append((KF_FRAME, name in ('dim', 'dim_range') and isinstance(exc, struct.error)))
     # x ^ -y: the parse action of the right-associative operator asserts an odd number of tokens
@@ -163,6 +231,34 @@ def known_run(name, fill, exc):
              isinstance(exc, (OverflowError, ValueError, TypeError, struct.error)))]
 
 
+COMPILE_LIMIT_S = 30
+
+
+class _TooSlow(BaseException):
+    pass
+
+
+class time_limit:
+    """the compiler is pure Python, so an alarm signal in the worker's main thread interrupts it"""
+
+    def __init__(self, seconds):
+        self.seconds = seconds
+
+    def __enter__(self):
+        import signal
+
+        def on_alarm(signum, frame):
+            raise _TooSlow()
+        self.old = signal.signal(signal.SIGALRM, on_alarm)
+        signal.setitimer(signal.ITIMER_REAL, self.seconds)
+
+    def __exit__(self, *exc):
+        import signal
+        signal.setitimer(signal.ITIMER_REAL, 0)
+        signal.signal(signal.SIGALRM, self.old)
+        return False
+
+
 def body_compile(h, name):
     progs = programs(name)
     n = 0
@@ -170,8 +266,13 @@ def body_compile(h, name):
         for fill, src in progs:
             n += 1
             try:
-                code = Compiler('qvm', optimization_level=opt, debug_info=dbg).compile(src)
+                with time_limit(COMPILE_LIMIT_S):
+                    code = Compiler('qvm', optimization_level=opt, debug_info=dbg).compile(src)
             except (QSyntaxError, CompileError):
+                continue
+            except _TooSlow:
+                h.prove('compilation_finishes_in_reasonable_time', False,
+                        detail=f'-O{opt}{" -g" if dbg else ""} {src!r}: not finished after {COMPILE_LIMIT_S} s (typical: 0.1 s)')
                 continue
             except Exception as e:          # noqa: BLE001 - that is the point
                 h.prove('only_syntax_and_compile_errors_escape_the_compiler', False, known=known_for(name, fill, src, e),
@@ -185,6 +286,7 @@ def body_compile(h, name):
     h.prove('programs_enumerated', n >= 1, detail=str(n))
     h.prove('only_syntax_and_compile_errors_escape_the_compiler', True)
     h.prove('accepted_program_can_be_assembled', True)
+    h.prove('compilation_finishes_in_reasonable_time', True)
 
 
 class _Impl:
@@ -224,9 +326,10 @@ def body_run(h, name):
     for opt, dbg in configs():
         for fill, src in progs:
             try:
-                code = Compiler('qvm', optimization_level=opt, debug_info=dbg).compile(src)
-                mod = QModule.parse(bytes(code))
-            except Exception:               # noqa: BLE001 - compile.bounded reports these
+                with time_limit(COMPILE_LIMIT_S):
+                    code = Compiler('qvm', optimization_level=opt, debug_info=dbg).compile(src)
+                    mod = QModule.parse(bytes(code))
+            except (Exception, _TooSlow):   # noqa: BLE001 - compile.bounded reports these
                 continue
             n += 1
             m = QvmMachine(mod, impl=_Impl())
